@@ -202,3 +202,16 @@ package query
 //@   ensures or_len: len(result) == len(a) + len(b)
 //@   ensures or_left: forall(k, 0, len(a), same_slice(result[k], a[k]))
 //@   ensures or_right: forall(k, 0, len(b), same_slice(result[len(a)+k], b[k]))
+
+// And: a set without alternatives is "no condition" and the other operand is returned as it is; otherwise there is
+// exactly one conjunction per pair of alternatives (none is dropped, none is added) - the product of the two
+// disjunctive normal forms.
+//@ func (ConditionsSet).And
+//@   prop C03
+//@   nosafety
+//@   noframe
+//@   ensures neutral_left: implies(len(a) == 0, same_slice(result, b))
+//@   ensures neutral_right: implies(len(a) != 0 && len(b) == 0, same_slice(result, a))
+//@   ensures product: implies(len(a) != 0 && len(b) != 0, len(result) == len(a) * len(b))
+//@   loop 1 invariant len(res) == (rangeindex+1) * len(b)
+//@   loop 2 invariant len(res) == at_loop(1, len(res)) + rangeindex + 1
